@@ -190,9 +190,13 @@ def run(ctx, only_replay=None):
     seqs = seqops.corpus_sequences() + [seqops.gen_sequence(ctx.rng.fork("seq%d" % i), s_after_close=bool(facts and facts["flags"].get("supervisorPushClosedSafe"))) for i in range(nseq)]
     corr_diffs, corr_lines, corr_err = [], 0, None
     seq_cov = {}
-    if exe and facts:
+    # when the translator no longer recognises the source (facts is None) the histories are still run: the implementation-side
+    # oracle (conservation, liveness) needs no model; the model then runs at the configuration of the last known source
+    corr_flags = facts["flags"] if facts else {"requeueOnNoReader": True, "requeueAtHead": True, "redispatchToNext": True, "cbChecksSchedId": True,
+                                               "forwardOwnSchedId": True, "loopBumpsSchedAtResume": True}
+    if exe:
         try:
-            corr_diffs, corr_lines, seq_cov = seqops.compare(ctx, plain["janet"], exe, seqs, facts["flags"])
+            corr_diffs, corr_lines, seq_cov = seqops.compare(ctx, plain["janet"], exe, seqs, corr_flags)
         except Exception as e:  # harness failure is a broken tie, not a verdict
             corr_err = "correspondence harness failed: %r" % (e,)
             broken.append(corr_err)
